@@ -101,6 +101,9 @@ func (b *boundsClient) lin(st *State, t *Term) *linForm {
 	case "bin":
 		switch t.Aux {
 		case "+":
+			if narrowUnsigned(t.Typ) > 0 && !b.fitsNarrow(st, t, b.lin(st, t.Args[0]).add(b.lin(st, t.Args[1]), 1)) {
+				return linAtom(t) // may wrap around in 8 or 16 bits: an opaque value
+			}
 			return b.lin(st, t.Args[0]).add(b.lin(st, t.Args[1]), 1)
 		case "-":
 			if isUnsignedType(t.Typ) && !b.noWrap(st, t) {
@@ -112,7 +115,11 @@ func (b *boundsClient) lin(st *State, t *Term) *linForm {
 		case "*":
 			for i := 0; i < 2; i++ {
 				if c, ok := termInt(t.Args[i]); ok {
-					return newLin().add(b.lin(st, t.Args[1-i]), c)
+					l := newLin().add(b.lin(st, t.Args[1-i]), c)
+					if narrowUnsigned(t.Typ) > 0 && !b.fitsNarrow(st, t, l) {
+						return linAtom(t) // 3*i computed in 16 bits wraps for i > 21845
+					}
+					return l
 				}
 			}
 		}
@@ -120,6 +127,40 @@ func (b *boundsClient) lin(st *State, t *Term) *linForm {
 		return b.linLen(st, t.Args[0])
 	}
 	return linAtom(t)
+}
+
+// narrowUnsigned: the largest value of an 8- or 16-bit unsigned type (0 for
+// every other type).  Sums and products in these types wrap early enough for a
+// count read from a table (up to 65535 restarts) to trigger it.
+func narrowUnsigned(t types.Type) int64 {
+	if t == nil {
+		return 0
+	}
+	if bt, ok := t.Underlying().(*types.Basic); ok {
+		switch bt.Kind() {
+		case types.Uint8:
+			return 255
+		case types.Uint16:
+			return 65535
+		}
+	}
+	return 0
+}
+
+// fitsNarrow: the unwrapped value l of the narrow unsigned expression t is at
+// most the type's maximum on this path.
+func (b *boundsClient) fitsNarrow(st *State, t *Term, l *linForm) bool {
+	if b.wrapBusy == nil {
+		b.wrapBusy = map[string]bool{}
+		b.wrapMemo = map[string]bool{}
+	}
+	if b.wrapBusy[t.key] {
+		return false
+	}
+	b.wrapBusy[t.key] = true
+	defer delete(b.wrapBusy, t.key)
+	g := l.add(linConst(narrowUnsigned(t.Typ)), -1)
+	return b.prove(st, g)
 }
 
 // noWrap: the unsigned subtraction t = x - y cannot wrap on this path (y <= x
